@@ -152,6 +152,9 @@ def run(ctx):
                 ctx.violation("oracle-failure", "create on a %d-byte file recorded piece length %r, expected %d" % (sz, pl, want), dict(case, piece_length=pl))
         ctx.count("create_on_sparse_files", len(sizes))
         create_on_trees(ctx, tmp)
+        create_with_other_options(ctx, tmp)
+        create_on_huge_content(ctx, tmp)
+        create_with_unreadable_member(ctx, tmp)
     finally:
         shutil.rmtree(tmp, ignore_errors=True)
     return finish(ctx)
@@ -282,6 +285,165 @@ def create_on_trees(ctx, tmp):
                               {"kind": "create-symlink", "input": inp, "size": size, "expected": want, "rc": rc,
                                "stderr": err.decode("utf-8", "replace")[-300:]})
         shutil.rmtree(d, ignore_errors=True)
+
+
+HARMLESS_OPTIONS = (["--allow", "small-piece-length"], ["-A", "small-piece-length"], ["--allow", "uneven-piece-length"],
+                    ["--allow", "private-trackerless", "--private"], ["--md5"], ["--no-created-by", "--no-creation-date"],
+                    ["--comment", "c", "--source", "s"], ["--announce", "udp://t.example:1/announce", "--private"],
+                    ["--sort-by", "size"], ["--name", "n"], ["--include-hidden", "--include-junk"], ["--follow-symlinks"],
+                    ["--allow", "small-piece-length", "--allow", "uneven-piece-length", "--allow", "private-trackerless"],
+                    ["--peer", "1.2.3.4:5", "--link"], ["--show"], ["--dry-run"])
+
+
+def create_with_other_options(ctx, tmp):
+    """The automatic choice depends on the content size and on nothing else: every option of `create` that is not
+    --piece-length - in particular the --allow switches of the piece-length lints - leaves it alone (added after seeded
+    change C15-12: `--allow small-piece-length` lifted the 16 KiB floor for small content)."""
+    r = ctx.rng
+    sizes = [0, 1, 1000, 16 * KIB, 100 * KIB, 512 * KIB, 512 * KIB + 1, 3 * MIB, 9 * MIB]
+    jobs = [(sz, opt) for opt in HARMLESS_OPTIONS for sz in r.sample(sizes, ctx.n(3, 9))]
+    jobs += [(sz, ["--allow", "small-piece-length"]) for sz in sizes]
+
+    def one(job):
+        sz, opt = job
+        d = tempfile.mkdtemp(dir=tmp)
+        os.makedirs(os.path.join(d, "in", "sub"))
+        with open(os.path.join(d, "in", "a.bin"), "wb") as f:
+            f.truncate(sz // 2)
+        with open(os.path.join(d, "in", "sub", "b.bin"), "wb") as f:
+            f.truncate(sz - sz // 2)
+        single = (sz % 3 == 1)
+        inp = "in/sub/b.bin" if single else "in"
+        argv = ["torrent", "create", "--input", inp, "--output", "o.torrent"] + list(opt)
+        rc, out, err = ctx.imdl(argv, cwd=d, timeout=300)
+        data = None
+        if "--dry-run" not in opt:
+            try:
+                data = open(os.path.join(d, "o.torrent"), "rb").read()
+            except OSError:
+                pass
+        shutil.rmtree(d, ignore_errors=True)
+        return sz - sz // 2 if single else sz, opt, argv, rc, data, err
+
+    for counted, opt, argv, rc, data, err in lib.pmap(one, jobs):
+        ctx.cov["evaluations"] += 1
+        ctx.count("create_with_other_options")
+        ctx.distinct(("create-options", tuple(opt), counted))
+        case = {"kind": "create-options", "argv": ["imdl"] + argv, "content_bytes": counted, "rc": rc, "stderr": err.decode("utf-8", "replace")[-300:]}
+        if rc != 0:
+            ctx.violation("oracle-failure", "create without --piece-length but with %s was rejected for %d bytes of content (rc %d)"
+                          % (" ".join(opt), counted, rc), case)
+            continue
+        if data is None:
+            continue
+        try:
+            v, _ = lib.bdecode_strict(data)
+            pl = lib.dget(lib.dget(v, "info"), "piece length")
+        except Exception as e:
+            ctx.violation("oracle-failure", "create output undecodable: %r" % e, case); continue
+        if pl != oracle_pick(counted):
+            ctx.violation("oracle-failure", "create %s on %d bytes of content recorded piece length %r; the automatic choice is %d whatever "
+                          "else is on the command line" % (" ".join(opt), counted, pl, oracle_pick(counted)), dict(case, piece_length=pl))
+
+
+def create_on_huge_content(ctx, tmp):
+    """Content far beyond anything that can be hashed here: sparse files adding up to tens of TiB and more. A file already
+    lies at the output path, so the unchanged create stops with "output exists" - after the lints, before any hashing. What
+    must not happen is a rejection by a piece-length lint: the automatic choice is never rejected, at any size (added after
+    seeded change C15-10: a piece-count bound inside the small-piece-length lint, reached above 32 TiB)."""
+    TIB = 1 << 40
+    plans = [("33TiB", 33 * TIB), ("100TiB", 100 * TIB), ("1PiB+1", 1024 * TIB + 1), ("7EiB", 7 << 60)]
+    for label, total in plans:
+        d = tempfile.mkdtemp(dir=tmp)
+        os.makedirs(os.path.join(d, "in"))
+        made, i, per = 0, 0, 8 * TIB
+        try:
+            while made < total and i < 4096:
+                n = min(per, total - made)
+                try:
+                    with open(os.path.join(d, "in", "f%04d" % i), "wb") as f:
+                        f.truncate(n)
+                except OSError:
+                    if per <= (1 << 30):
+                        raise
+                    per //= 2          # the file system's largest file is smaller: use more files
+                    continue
+                made += n; i += 1
+        except OSError:
+            pass
+        if made < total:
+            ctx.count("create_on_huge_content_skipped_" + label)
+            shutil.rmtree(d, ignore_errors=True)
+            continue
+        open(os.path.join(d, "in.torrent"), "wb").write(b"occupied")
+        rc, out, err = ctx.imdl(["torrent", "create", "--input", "in"], cwd=d, timeout=300)
+        text = err.decode("utf-8", "replace")
+        ctx.cov["evaluations"] += 1
+        ctx.count("create_on_huge_content")
+        ctx.distinct(("create-huge", label))
+        untouched = open(os.path.join(d, "in.torrent"), "rb").read() == b"occupied"
+        shutil.rmtree(d, ignore_errors=True)
+        low = text.lower()
+        if rc != 1 or not untouched or "--allow" in low or "piece length" in low or "piece-length" in low or "exists" not in low:
+            ctx.violation("oracle-failure",
+                          "create without --piece-length on %s of (sparse) content in %d files, output path occupied: expected the refusal "
+                          "`output exists` (exit 1) and no word about piece lengths; got exit %d, stderr %r" % (label, i, rc, text[-300:]),
+                          {"kind": "create-huge", "total_bytes": total, "files": i, "rc": rc, "stderr": text[-400:],
+                           "argv": "mkdir in; truncate -s ... in/f*; echo occupied > in.torrent; imdl torrent create --input in"})
+
+
+def create_with_unreadable_member(ctx, tmp):
+    """A member the user may stat but not open (mode 000 / another owner), big enough to move the total across a step of the
+    table: create either fails, or whatever torrent it writes has the piece length that belongs to the content it lists
+    (added after seeded change C15-11: the unreadable file was skipped after the piece length had been picked from the
+    walker's stat-based total). Needs an unprivileged user: run through setpriv as uid 65534 when this process is root."""
+    if not lib.can_drop_privileges():
+        ctx.count("create_unreadable_member_skipped"); return
+    base = tempfile.mkdtemp(prefix="c15u-", dir="/tmp" if os.path.isdir("/tmp") else None)
+    try:
+        os.chmod(base, 0o755)
+        if ctx.imdl(["--version"], cwd=base, as_nobody=True)[0] != 0:
+            ctx.count("create_unreadable_member_skipped"); return
+        for small, big in ((1 * MIB, 31 * MIB), (1000, 3 * MIB), (2 * MIB, 7 * MIB)):
+            d = tempfile.mkdtemp(dir=base)
+            os.makedirs(os.path.join(d, "in"))
+            os.makedirs(os.path.join(d, "out"))
+            for dp in (d, os.path.join(d, "in")):
+                os.chmod(dp, 0o755)
+            os.chmod(os.path.join(d, "out"), 0o777)
+            with open(os.path.join(d, "in", "readable.bin"), "wb") as f:
+                f.truncate(small)
+            with open(os.path.join(d, "in", "locked.bin"), "wb") as f:
+                f.truncate(big)
+            os.chmod(os.path.join(d, "in", "readable.bin"), 0o644)
+            os.chmod(os.path.join(d, "in", "locked.bin"), 0o000)
+            rc, out, err = ctx.imdl(["torrent", "create", "--input", "in", "--output", "out/o.torrent"], cwd=d, timeout=300, as_nobody=True)
+            ctx.cov["evaluations"] += 1
+            ctx.count("create_with_unreadable_member")
+            ctx.distinct(("create-unreadable", small, big))
+            try:
+                data = open(os.path.join(d, "out", "o.torrent"), "rb").read()
+            except OSError:
+                data = None
+            if data is not None:
+                try:
+                    v, _ = lib.bdecode_strict(data)
+                    info = lib.dget(v, "info")
+                    fl = lib.dget(info, "files")
+                    total = lib.dget(info, "length") if fl is None else sum(lib.dget(f, "length") for f in fl)
+                    pl = lib.dget(info, "piece length")
+                except Exception:
+                    total, pl = None, None
+                if total is None or pl != oracle_pick(total):
+                    ctx.violation("oracle-failure",
+                                  "create (as uid 65534) on a directory with a readable %d-byte file and an unreadable %d-byte file wrote a "
+                                  "torrent listing %r bytes with piece length %r; the automatic choice for what it lists is %r"
+                                  % (small, big, total, pl, None if total is None else oracle_pick(total)),
+                                  {"kind": "create-unreadable", "readable": small, "unreadable": big, "rc": rc, "stderr": err.decode("utf-8", "replace")[-300:]})
+            elif rc == 0:
+                ctx.violation("oracle-failure", "create exited 0 without writing its output", {"kind": "create-unreadable", "rc": rc})
+    finally:
+        shutil.rmtree(base, ignore_errors=True)
 
 
 def book_rows():
